@@ -328,11 +328,12 @@ impl G {
             }
             12 => {
                 self.used.push("closure");
-                let p = match self.r.below(5) {
+                let p = match self.r.below(6) {
                     0 => self.ident(),
                     1 => "_".into(),
                     2 => format!("({}{}, {}: {})", self.t(), self.ident(), self.ident(), self.lit()),
                     3 => format!("(({}, {}), ..{})", self.ident(), self.ident(), self.ident()),
+                    4 => format!("({}{},{} {})", self.t(), self.pattern(2), self.t(), self.pattern(2)),
                     _ => "(..args)".into(),
                 };
                 format!("{}{} => {}{}", p, self.t(), self.t(), self.expr(d - 1))
@@ -399,10 +400,10 @@ impl G {
             }
             23 => {
                 self.used.push("for");
-                let pat = if self.r.below(3) == 0 {
-                    format!("({}, {})", self.ident(), self.ident())
-                } else {
-                    self.ident()
+                let pat = match self.r.below(4) {
+                    0 => format!("({}, {})", self.ident(), self.ident()),
+                    1 => self.pattern(2),
+                    _ => self.ident(),
                 };
                 format!("for {} in {}{} {{ {} }}", pat, self.t(), self.expr(d - 1), self.expr(d - 1))
             }
@@ -432,11 +433,51 @@ impl G {
             _ => self.ident(),
         }
     }
+    /// A binding pattern: identifier, placeholder, parenthesised pattern or destructuring with
+    /// positional, named (`k: pat`, `k: _`) and sink (`..`, `..rest`) items, nested.
+    pub fn pattern(&mut self, d: usize) -> String {
+        match self.r.below(if d == 0 { 3 } else { 8 }) {
+            0 | 1 => self.ident(),
+            2 => "_".into(),
+            3 => format!("({})", self.pattern(d - 1)),
+            _ => {
+                self.used.push("destructuring");
+                let n = self.r.below(4);
+                let mut items: Vec<String> = vec![];
+                let mut spread = false;
+                for _ in 0..=n {
+                    let it = match self.r.below(7) {
+                        0 | 1 => self.pattern(d - 1),
+                        2 => format!("{}:{}{}", self.ident(), self.t(), self.pattern(d - 1)),
+                        3 => format!("{}: _", self.ident()),
+                        4 if !spread => {
+                            spread = true;
+                            format!("..{}", self.ident())
+                        }
+                        5 if !spread => {
+                            spread = true;
+                            "..".into()
+                        }
+                        _ => self.ident(),
+                    };
+                    items.push(it);
+                }
+                let trail = if items.len() == 1 && !items[0].starts_with("..") && !items[0].contains(':') {
+                    ","
+                } else {
+                    self.r.pick(&["", ",", ", "])
+                };
+                let sep = format!(",{}", self.t());
+                format!("({}{}{}{})", self.t(), items.join(&sep), trail, self.t())
+            }
+        }
+    }
     pub fn stmt(&mut self, d: usize) -> String {
         match self.r.below(12) {
             0 | 1 | 2 => {
                 self.used.push("let");
-                let p = match self.r.below(6) {
+                let p = match self.r.below(8) {
+                    6 | 7 => self.pattern(2),
                     0 => format!("({}, {})", self.ident(), self.ident()),
                     1 => format!("{}({}, {}: {})", self.ident(), self.ident(), self.ident(), self.lit()),
                     2 => format!("({}: {}, ..{})", self.ident(), self.ident(), self.ident()),
@@ -453,8 +494,11 @@ impl G {
                     self.ident(),
                     self.expr(d)
                 );
-                if self.r.below(4) == 0 {
-                    s += &format!(" if {}", self.expr(d.min(1)));
+                match self.r.below(8) {
+                    0 | 1 => s += &format!(" if {}", self.expr(d.min(1))),
+                    2 => s += &format!("[{}]", self.markup_inline(d.min(1))),
+                    3 => s = format!("set {}[{}]", self.ident(), self.markup_inline(d.min(1))),
+                    _ => {}
                 }
                 s
             }
@@ -479,7 +523,11 @@ impl G {
             }
             7 => {
                 self.used.push("destruct-assign");
-                format!("({}, {}) = ({}, {})", self.ident(), self.ident(), self.lit(), self.lit())
+                if self.r.below(2) == 0 {
+                    format!("({}, {}) = ({}, {})", self.ident(), self.ident(), self.lit(), self.lit())
+                } else {
+                    format!("({}: {}, {}, ..) = {}", self.ident(), self.pattern(1), self.pattern(1), self.ident())
+                }
             }
             _ => self.expr(d),
         }
@@ -543,6 +591,13 @@ impl G {
                         "\"quoted\"",
                         "<lab>",
                         "@ref[supp]",
+                        "@ref[]",
+                        "@ref[ ]",
+                        "@ref[]text",
+                        "@ref[a][b]",
+                        "@ref.",
+                        "@a:b-c[]-d",
+                        "#x _1",
                         "a \\\nb",
                         "`raw`",
                         "don't",
@@ -603,7 +658,7 @@ impl G {
         let mut s = String::new();
         s += self.r.pick(&["", " ", "\n"]);
         for _ in 0..(1 + self.r.below(4)) {
-            match self.r.below(14) {
+            match self.r.below(16) {
                 0 | 1 => s += self.r.pick(&["a", "x", "alpha", "1", "+", "=", "\"t\"", "&", "\\ ", "->", "dif x", "1.5"]),
                 2 => s += "x_1^2",
                 3 => s += "a/b",
@@ -644,6 +699,7 @@ impl G {
                 }
                 11 => s += self.r.pick(&["[a, b]", "{x}", "|y|", "lr((a))"]),
                 12 => s += self.r.pick(&["√x", "x_(i j)", "a^(-1)", "vec(1, 2)", "f(x, y)", "cases(a &\"if\" b, c)", "#f(x)[c]", "#g[a][b]", "vec(#f(x)[c], b)", "mat(#g[a][b]; #h(1, 2))", "#f(x)"]),
+                13 => s += self.r.pick(&["#x;", "1/#x;", "x_#y;", "√#x;", "#x _1", "#x.y _1", "mat(a #x ; b)", "mat(#x;; b)", "mat(n: #x ; b)", "#x;^2", "a_\\ ", "{ \\ ", "#(x)", "#(1) x", "vec(a, #x)", "f(#x ; y)"]),
                 _ => s += "y",
             }
             s += self.r.pick(&[" ", " ", "", "\n", "  "]);
@@ -1230,4 +1286,126 @@ pub fn perf_case(fam: &str, d: usize) -> String {
             s + "\n"
         }
     }
+}
+
+// ---------------------------------------------------------------------------------------------
+// G-mut: token-level mutations of valid documents (fixtures, generated documents) that still
+// parse without errors.  Reaches the corners between productions the grammar does not write
+// down: removed blanks between tokens, extra parentheses around any expression, stray
+// separators and terminators, duplicated marks, comments at every leaf boundary.
+// ---------------------------------------------------------------------------------------------
+pub const MUT_U: u64 = 600_000;
+
+struct MLeaf {
+    kind: typst_syntax::SyntaxKind,
+    start: usize,
+    end: usize,
+}
+
+fn mut_collect(
+    n: &typst_syntax::SyntaxNode,
+    off: &mut usize,
+    parent: typst_syntax::SyntaxKind,
+    prev_hash: bool,
+    leaves: &mut Vec<MLeaf>,
+    exprs: &mut Vec<(usize, usize)>,
+) {
+    use typst_syntax::{ast::Expr, SyntaxKind as K};
+    let start = *off;
+    if n.children().len() == 0 {
+        *off += n.text().len();
+        leaves.push(MLeaf { kind: n.kind(), start, end: *off });
+    } else {
+        let mut ph = false;
+        for c in n.children() {
+            mut_collect(c, off, n.kind(), ph, leaves, exprs);
+            ph = c.kind() == K::Hash;
+        }
+    }
+    // expressions in code position: anywhere but directly in markup or math (there only after `#`)
+    let in_code = !matches!(parent, K::Markup | K::Math | K::MathAttach | K::MathFrac | K::MathRoot | K::MathDelimited | K::Equation | K::Strong | K::Emph | K::Heading | K::ListItem | K::EnumItem | K::TermItem);
+    if n.is::<Expr>() && (in_code || prev_hash) && *off > start && !matches!(n.kind(), K::Text | K::Space | K::Parbreak | K::Markup | K::Math | K::Code) {
+        exprs.push((start, *off));
+    }
+}
+
+pub fn mut_case(idx: u64, fixtures: &Fixtures) -> (String, Cfg, String) {
+    use typst_syntax::SyntaxKind as K;
+    let mut r = Rng::new(mix(0x3071, idx));
+    let (mut src, mut cfg) = if r.below(2) == 0 && !fixtures.items.is_empty() {
+        // a small fixture or fixture chunk
+        let mut pick = None;
+        for _ in 0..8 {
+            let (_, s) = &fixtures.items[r.below(fixtures.items.len())];
+            if s.len() < 1500 && (s.contains('#') || s.contains('$')) && !typst_syntax::parse(s).erroneous() {
+                pick = Some(s.clone());
+                break;
+            }
+        }
+        (pick.unwrap_or_else(|| gram_case(r.next() % GRAM_U).0), rand_cfg(&mut r))
+    } else {
+        let (s, c, _) = gram_case(r.next() % GRAM_U);
+        (s, c)
+    };
+    if r.below(4) == 0 {
+        cfg = rand_cfg(&mut r);
+    }
+    let ins = [
+        ";", ",", "_", ".", "#", "[]", "()", "{}", "\\", "~", "-", "'", "^", "em", "x", "1", "1.", "\"s\"", "$", "// c\n", "/* c */", ":", "..",
+        "%", "!", "none", "#x", "#f()", "#(x)", "[ ]", " ", "\n", "\n\n", "*", "=", "+", "<l>", "@r", "@r[]", "not ", "in", "&", "|", "\"", "`", "/",
+    ];
+    let nedits = 1 + r.below(3);
+    let mut log = String::new();
+    for _ in 0..nedits {
+        for _attempt in 0..8 {
+            let root = typst_syntax::parse(&src);
+            if root.erroneous() {
+                break;
+            }
+            let (mut leaves, mut exprs) = (vec![], vec![]);
+            mut_collect(&root, &mut 0, K::Markup, false, &mut leaves, &mut exprs);
+            if leaves.is_empty() {
+                break;
+            }
+            let spaces: Vec<usize> = (0..leaves.len()).filter(|&i| leaves[i].kind == K::Space).collect();
+            let op = r.below(10);
+            let (cand, what): (String, &str) = match op {
+                0 | 1 if !spaces.is_empty() => {
+                    let l = &leaves[spaces[r.below(spaces.len())]];
+                    (format!("{}{}", &src[..l.start], &src[l.end..]), "join")
+                }
+                2 if !spaces.is_empty() => {
+                    let l = &leaves[spaces[r.below(spaces.len())]];
+                    let w = r.pick(&["\n", "  ", "\n\n", " /* m */ ", " // m\n", "\n\n\n", "\t", " \n "]);
+                    (format!("{}{}{}", &src[..l.start], w, &src[l.end..]), "respace")
+                }
+                3 | 4 | 5 if !exprs.is_empty() => {
+                    let (a, b) = exprs[r.below(exprs.len())];
+                    let pairs = [("(", ")"), ("(", ")"), ("((", "))"), ("( ", " )"), ("(/* p */", ")"), ("(\n", "\n)"), ("{", "}"), ("{ ", " }")];
+                    let (o, c) = pairs[r.below(pairs.len())];
+                    (format!("{}{}{}{}{}", &src[..a], o, &src[a..b], c, &src[b..]), "wrap")
+                }
+                6 => {
+                    let l = &leaves[r.below(leaves.len())];
+                    (format!("{}{}", &src[..l.start], &src[l.end..]), "delete")
+                }
+                7 => {
+                    let l = &leaves[r.below(leaves.len())];
+                    (format!("{}{}{}", &src[..l.end], &src[l.start..l.end], &src[l.end..]), "dup")
+                }
+                _ => {
+                    let l = &leaves[r.below(leaves.len())];
+                    let at = if r.below(2) == 0 { l.start } else { l.end };
+                    (format!("{}{}{}", &src[..at], r.pick(&ins), &src[at..]), "insert")
+                }
+            };
+            if cand.len() < 20_000 && !typst_syntax::parse(&cand).erroneous() {
+                src = cand;
+                log += what;
+                log.push(' ');
+                break;
+            }
+        }
+    }
+    (src, cfg, format!("mut {}", log.trim_end()))
 }
